@@ -83,6 +83,10 @@ CORPUS = [
     {"label": "queue", "args": ["--on-busy-update=queue"], "child_script": "exit_after=400,on_usr1=ignore",
      "events": [{"k": "change", "at_ms": 150}, {"k": "signal", "sig": "User1", "at_ms": 170}], "wait_ms": 900,
      "mode": 1, "restart": False, "signal": None, "stop": None, "postpone": False, "eff": 1, "life": 400, "react": "exit:0"},
+    # a stop timeout written without a unit is in seconds: the ignoring command is killed one second after the stop signal
+    {"label": "-r", "args": ["-r", "--stop-timeout=1"], "child_script": "exit_after=5000,on_term=ignore",
+     "events": [{"k": "change", "at_ms": 150}], "wait_ms": 1600,
+     "mode": 0, "restart": True, "signal": None, "stop": None, "postpone": False, "eff": 2, "life": 5000, "react": "ignore"},
     # do-nothing then idle start
     {"label": "default", "args": [], "child_script": "exit_after=300",
      "events": [{"k": "change", "at_ms": 100}, {"k": "change", "at_ms": 500}], "wait_ms": 700,
@@ -354,6 +358,15 @@ class C05(Prop):
                     elif i > 0 or case["postpone"]:
                         if seq[i + 1:i + 2] != ["start"]:
                             c.failing.append({"case": brief, "impl": seq, "clause": "C05_idle_starts: change while idle did not start the command"})
+            # restart: a command that ignores the stop signal is killed no earlier than the documented stop timeout
+            if em == 2 and case["react"] == "ignore" and case["life"] >= 5000:
+                st = next((a.split("=", 1)[1] for a in case["args"] if a.startswith("--stop-timeout=")), "10s")
+                st_ms = int(st[:-2]) if st.endswith("ms") else int(float(st[:-1]) * 1000) if st.endswith("s") else int(float(st) * 1000)
+                evl = [(t, k, l) for t, k, l in items if k in ("sig", "start")]
+                for (t1, k1, _), (t2, k2, _) in zip(evl, evl[1:]):
+                    if k1 == "sig" and k2 == "start" and t2 - t1 < st_ms - 40:
+                        c.failing.append({"case": brief, "impl": {"signal_to_restart_ms": t2 - t1}, "expected": {"stop_timeout_ms": st_ms},
+                                          "clause": "C05_restart: the command was force-killed before the stop timeout had elapsed"})
             # freshness (restart, queue): if the last run could end within the observation window, the last change precedes the last start
             if em in (1, 2) and "chg" in seq and case["life"] < 5000:
                 last_chg = max(i for i, a in enumerate(seq) if a == "chg")
